@@ -43,6 +43,8 @@ ARM_SPECS = {
 # accepted variants (same behaviour): the collected operands are reversed in place and then iterated, or
 # iterated in reverse
 ARM_VARIANTS = {k: [v] for k, v in ARM_SPECS.items()}
+ARM_VARIANTS[3].append(Seq(RNG, Star("POP(CUR)", "COLLECT(VEC,POPPED)"), "ITER(VEC)", "ITER(REV(VEC))", Star("ELEMOP(minus,ELEM)", "ACCOP(add,ZERO,ELEM)", "PUSH(CUR,ELEM)"), "PUSH(DOT,ZERO)"))
+ARM_VARIANTS[4].append(Seq(RNG, Star("POP(CUR)", "COLLECT(VEC,POPPED)"), "ITER(VEC)", "ITER(REV(VEC))", Star("ELEMOP(flip,ELEM)", "ACCOP(mul,ONE,ELEM)", "PUSH(CUR,ELEM)"), "PUSH(DOT,ONE)"))
 ARM_VARIANTS[3].append(Seq(RNG, Star("POP(CUR)", "COLLECT(VEC,POPPED)"), "ITER(REV(VEC))", Star("ELEMOP(minus,ELEM)", "ACCOP(add,ZERO,ELEM)", "PUSH(CUR,ELEM)"), "PUSH(DOT,ZERO)"))
 ARM_VARIANTS[4].append(Seq(RNG, Star("POP(CUR)", "COLLECT(VEC,POPPED)"), "ITER(REV(VEC))", Star("ELEMOP(flip,ELEM)", "ACCOP(mul,ONE,ELEM)", "PUSH(CUR,ELEM)"), "PUSH(DOT,ONE)"))
 ID = "((AREACOUNT Shl K4) Add AREATYPE)"
@@ -223,7 +225,7 @@ def calc_events(body, fb):
             return None
         return NotImplemented
 
-    ev = Events(body, fb, roles=roles, stmt_events=stmt_events, extra_epsilon={"core::cmp::PartialOrd::partial_cmp"})
+    ev = Events(body, fb, roles=roles, stmt_events=stmt_events, extra_epsilon={"core::cmp::PartialOrd::partial_cmp", "core::cmp::PartialEq::eq"})
     return ev, loopvar
 
 
